@@ -36,7 +36,7 @@ Codecs == CASE Purpose = "c06" -> Adaptive
 
 \* length classes
 CoreLens == {1, 2, 17, 129}
-BoundaryLens == {1, 2, 3, 15, 16, 17, 127, 128, 129, 240, 241, 242, 255, 256, 257,
+BoundaryLens == {1, 2, 3, 15, 16, 17, 127, 128, 129, 130, 240, 241, 242, 255, 256, 257, 385,
                  2287, 2288, 2289, 4095, 4096, 4097}
 HugeLens == {65535, 65536, 65537}
 GroupLens == {1, 2, 3, 4, 5, 8, 9, 32, 33, 63, 64}
@@ -56,8 +56,23 @@ WideShapes == {<<"nine", 0>>, <<"max64", 0>>, <<"rand64", 0>>, <<"rand32", 0>>, 
 PatchShapes == {<<"marker", w>> : w \in {0, 1, 2}} \cup {<<"outfirst", 0>>, <<"outlast", 0>>}
                \cup {<<"cluster", k>> : k \in {0, 10, 49, 51, 200}}
 SamplerShapes == {<<"periodic", s>> : s \in {2, 10, 20}}
+\* arithmetic progressions whose MINIMUM sits exactly on, one below and one
+\* above each length class of the tagged varint that stores it in the FOR /
+\* PFOR / delta headers (240, 2287, 67823, 2^24, 2^32, 2^40, 2^48, 2^56) and
+\* on the byte-width classes of the offsets: <<"lin", e, d, step, bump>> has
+\* lo = 2^e + d (e = -1: lo = d)
+MinAtShapes == {<<"lin", -1, d, 1, 0>> : d \in {239, 240, 241, 2286, 2287, 2288, 67822, 67823, 67824}}
+               \cup {<<"lin", e, d, 3, 0>> : e \in {24, 32, 40, 48, 56}, d \in {-1, 0, 1}}
+               \cup {<<"lin", -1, 240, 1, b>> : b \in {254 - 16, 255 - 16, 256 - 16, 65535 - 16, 65536 - 16}}
+\* 128-blocks of zero width: all-zero (zblk) or repeating the previous value
+\* (flatblk, zero-width for the delta variants); the parameter's bit b%8 marks
+\* block b: first, second, last of three, all, alternating
+ZeroBlockShapes == {<<sh, m>> : sh \in {"zblk", "flatblk"}, m \in {1, 2, 4, 5, 255, 254}}
 AllShapes == CoreShapes \cup WidthShapes \cup OrderShapes \cup RepeatShapes \cup WideShapes
-             \cup PatchShapes \cup SamplerShapes
+             \cup PatchShapes \cup SamplerShapes \cup MinAtShapes \cup ZeroBlockShapes
+P(sh, i) == IF Len(sh) >= i + 1 THEN sh[i + 1] ELSE 0
+HeaderCodecs == {"for", "for_batch", "pfor", "delta_u", "delta_s", "adaptive"}
+BlockCodecs == {"bp32", "bp64", "bpd32", "bpd64", "for", "pfor", "adaptive"}
 \* worst cases of the size bounds (C03)
 WorstShapes == WideShapes \cup {<<"outlast", 0>>, <<"outfirst", 0>>, <<"runs", 1>>, <<"runs", 241>>,
                                 <<"fewuniq", 257>>, <<"periodic", 10>>, <<"periodic", 20>>, <<"altbits", 64>>,
@@ -74,6 +89,10 @@ Applicable(c, n, s) ==
             \/ c[1] = "adaptive" /\ n \in SamplerLens /\ s \in (SamplerShapes \cup OrderShapes \cup {<<"fewuniq", 3>>, <<"cluster", 49>>})
             \/ c[1] \in {"pfor", "adaptive"} /\ n \in {127, 256, 2288} /\ s \in PatchShapes
             \/ c[1] \in {"rle", "rle_hdr", "dict", "adaptive"} /\ n \in {241, 2288} /\ s \in RepeatShapes
+            \/ c[1] \in HeaderCodecs /\ n \in {2, 17, 241} /\ s \in MinAtShapes
+            \/ c[1] \in BlockCodecs /\ n \in {128, 129, 130, 256, 257, 385} /\ s \in ZeroBlockShapes
+         /\ (s \in MinAtShapes => c[1] \in HeaderCodecs /\ n \in {2, 17, 241})
+         /\ (s \in ZeroBlockShapes => c[1] \in BlockCodecs /\ n \in {128, 129, 130, 256, 257, 385})
          /\ (s[1] = "periodic" => n >= 2287)
          /\ (n > 4097 => s \in CoreShapes \cup SamplerShapes \cup OrderShapes \cup {<<"fewuniq", 3>>, <<"cluster", 49>>})
 
@@ -86,7 +105,7 @@ PickCodec == /\ stage = 0 /\ stage' = 1 /\ codec' \in Codecs /\ UNCHANGED <<len,
 PickLen == /\ stage = 1 /\ stage' = 2 /\ len' \in Lens(codec) /\ UNCHANGED <<codec, shape>>
 PickShape == /\ stage = 2 /\ stage' = 3
              /\ shape' \in {s \in AllShapes : Applicable(codec, len, s)}
-             /\ PrintT(<<"SCEN", codec[1], codec[2], len, shape'[1], shape'[2]>>)
+             /\ PrintT(<<"SCEN", codec[1], codec[2], len, shape'[1], shape'[2], P(shape', 2), P(shape', 3), P(shape', 4)>>)
              /\ UNCHANGED <<codec, len>>
 Next == PickCodec \/ PickLen \/ PickShape
 Spec == Init /\ [][Next]_vars
